@@ -134,6 +134,8 @@ def handlePatch (xs : List Int) : String :=
       match pMol r2 with
       | none => "badwire"
       | some (s, _) =>
+        if !s.WF then "malformed"   -- the hypotheses of the frame theorems (`Props.C16.wf_gives_hypotheses`)
+        else
         match templateInit t with
         | .error e => showErr e
         | .ok td =>
@@ -151,6 +153,8 @@ def handleTrans (xs : List Int) : String :=
       match pMol r2 with
       | none => "badwire"
       | some (s, _) =>
+        if !s.WF then "malformed"
+        else
         match templateInit t with
         | .error e => showErr e
         | .ok td =>
@@ -170,7 +174,8 @@ def handleDel (xs : List Int) : String :=
       | some (g, _) =>
         match getDeleted g tpl mp with
         | .error e => showErr e
-        | .ok d => "ok " ++ showNats (sortNats d)
+        | .ok d =>   -- `sym`: the graph satisfies the hypothesis of `get_deleted_exact` (all generated graphs do)
+          (if symmB g then "ok " else "ok-nosym ") ++ showNats (sortNats d)
 
 def showMolRes : Except PyErr Mol → String
   | .error e => showErr e
